@@ -408,6 +408,10 @@ func harnessIntrinsic(fn *ssa.Function) intrinsicFn {
 		return func(in *Interp, fn *ssa.Function, a []Value) Value {
 			return in.tb.Int(in.concretize(in.term(a[0], "vConcrete"), "vConcrete"))
 		}
+	case "vConcreteBool":
+		return func(in *Interp, fn *ssa.Function, a []Value) Value {
+			return in.tb.Bool(in.branch(in.term(a[0], "vConcreteBool")))
+		}
 	case "vAssume":
 		return func(in *Interp, fn *ssa.Function, a []Value) Value {
 			c := in.term(a[0], "vAssume")
